@@ -11,13 +11,15 @@ TMP=/var/tmp/regressmatrix.$$
 for id in $IDS; do
   for p in mutants/$id/*.patch seeded/$id*/patch.diff; do
     [ -f "$p" ] || continue
+    cid=$id
+    [ -f "$(dirname $p)/check" ] && cid=$(cat "$(dirname $p)/check")
     D=/var/tmp/mv-rm-$$
     mkdir -p $D/out && cp -r /repo/mistral $D/mistral
     ( cd $D && patch -p1 -s < /verif/$p ) || { echo "| $id | $p | patch failed |" >> $TMP; rm -rf $D; continue; }
-    VERIF_REPO=$D VERIF_OUT=$D/out ./check $id --regress-only > $D/log 2>&1
+    VERIF_REPO=$D VERIF_OUT=$D/out ./check $cid --regress-only > $D/log 2>&1
     rc=$?
     f=$(grep -o 'replay=[^ ]*' $D/log | head -1 | sed 's/.*regress\///')
-    echo "| $id | $p | exit=$rc | $f |" >> $TMP
+    echo "| $cid | $p | exit=$rc | $f |" >> $TMP
     echo "$id $p exit=$rc $f"
     rm -rf $D
   done
